@@ -399,7 +399,7 @@ func checkC14(run *mon.Run, rng *mon.Rand, thorough bool) {
 	e0 := c.bases[0].e
 	execLists := [][]string{{}, {sim.NewAccount("newexec1").String()}, {sim.NewAccount("newexec1").String(), sim.NewAccount("newexec2").String(), sim.NewAccount("newexec3").String()}, {e0.Executors[0].String(), sim.NewAccount("newexec1").String()},
 		{sim.NewAccount("newexec1").String(), sim.NewAccount("newexec2").String(), sim.NewAccount("newexec1").String()}, // names an executor twice
-		{strings.ToUpper(sim.NewAccount("newexec1").String()), sim.NewAccount("newexec2").String()}} // the first one is spelled in bech32's upper case
+		{strings.ToUpper(sim.NewAccount("newexec1").String()), sim.NewAccount("newexec2").String()}}                     // the first one is spelled in bech32's upper case
 	n := 0
 	for bi, b := range c.bases {
 		for _, cls := range classes {
